@@ -16,7 +16,7 @@ func main() {
 	args := lib.ParseArgs()
 	w := lib.NewWriter(args, "C04", "c04", "From KB Require Import Model.C04Cases.", "sched_case", "c04_check", "c04_oracle", 150)
 	lib.KBDrive(w, args, lib.KBProfile{Prop: "C04", Malformed: 40, ErrPct: 15, AbortPct: 6,
-		Quick: 300, QuickOther: 40, Thorough: 5000, Search: 1500, Exhaustive: false})
+		Quick: 300, QuickOther: 40, Thorough: 5000, Search: 1500, Exhaustive: false, SmallCache: true})
 	if err := w.Finish("non-trivial = a step of one client thread happened between two steps of another"); err != nil {
 		fmt.Fprintln(os.Stderr, err)
 		os.Exit(2)
